@@ -43,7 +43,7 @@ def semantic_mutation(r, m):
                      "type", "code", "dup-opt", "payload", "drop-opt", "qblock", "oscore-opt",
                      "noresponse", "echo"])
     if any(n == 9 and v for n, v in m["options"]) and r.random() < 0.5:
-        kind = "oscore-piv"
+        kind = r.choice(["oscore-piv", "oscore-piv", "oscore-kidctx"])
 
     def setopt(num, val):
         m["options"] = [(n, v) for n, v in m["options"] if n != num] + [(num, val)]
@@ -81,6 +81,24 @@ def semantic_mutation(r, m):
         m["options"].pop(r.randrange(len(m["options"])))
     elif kind == "oscore-opt":
         setopt(9, bytes(r.getrandbits(8) for _ in range(r.choice([0, 1, 2, 3, 9, 12]))))
+    elif kind == "oscore-kidctx":
+        # the recorded sender's kid (it travels in the clear) under a kid context of the
+        # forger's making: for a server that does RFC 8613 Appendix B.2 the kid context is a
+        # CBOR byte string, so heads that promise more than is there, and plain garbage
+        ov = [v for n, v in m["options"] if n == 9][0]
+        flags = ov[0]
+        pl = flags & 7
+        pos = 1 + pl
+        if flags & 0x10 and pos < len(ov):
+            pos += 1 + ov[pos]
+        kid = ov[pos:] if flags & 0x08 else b""
+        kc = r.choice([b"\x59\xff\xff", b"\x58\xff", b"\x5a\x00\x01\x00\x00", b"\x5b" + bytes(7)
+                       + b"\x40", b"\x18", b"\x19\xff", b"\x58", b"\x59\x01", b"\x44abcd",
+                       b"\x48abc", b"\x40", b"\x57" + bytes(3),
+                       bytes(r.getrandbits(8) for _ in range(r.choice([1, 2, 9])))])
+        if r.random() < 0.3:
+            kc = kc + bytes(r.getrandbits(8) for _ in range(r.choice([1, 8, 30])))
+        setopt(9, bytes([(flags & 0x07) | 0x18]) + ov[1:1 + pl] + bytes([len(kc)]) + kc + kid)
     elif kind == "oscore-piv":
         # a protected message of the recorded traffic with the sender's kid kept (it travels in
         # the clear) and a Partial IV of the forger's choosing; ciphertext as recorded, cut
@@ -174,7 +192,7 @@ def _udp(exe, r, run, stats, w, sim, wit):
         osc["start"] = min(osc["start"], 2 ** 40 - 100000)
         sim.cmd("oscore_server 1 %s" % c14.conf_text(osc["secret"], osc["salt"], osc["server_id"],
                                                      osc["client_id"], osc["idctx"],
-                                                     r.random() < 0.3))
+                                                     r.random() < 0.3, b2=r.random() < 0.4))
     sim.cmd("ep 1 udp %s" % SRV)
     # (attributes with several values: discovery requests with rt=/if= filters walk them)
     sim.cmd("res 1 %s body=fixed:%s attr=%s:%s,%s:%s" % (
